@@ -27,6 +27,37 @@ pub struct Step {
     pub extra: Vec<Vec<u8>>,
 }
 
+/// What the owner of a dynamic-slot component does to its slots during a step (js/worker.mjs `planSlotOps`):
+/// kind 0 set a slot value, 1 remove a slot, 2 insert a slot, 3 rename a slot, 4 remove two slots in one call.
+#[derive(Clone, Debug, Serialize, Deserialize, PartialEq)]
+pub struct SlotOp {
+    pub kind: u8,
+    pub sel: u32,
+    pub name: u8,
+    pub val: JsVal,
+    /// kind 0: apply at once (`applySlotValueUpdates`) instead of with the batch; 1/4: reversed order; 2: append
+    pub flag: bool,
+    /// before the parent's update (else after it)
+    pub before: bool,
+}
+
+impl SlotOp {
+    pub fn to_json(&self) -> serde_json::Value {
+        json!({"kind": self.kind, "sel": self.sel, "name": self.name, "val": self.val.to_js(), "flag": self.flag, "before": self.before})
+    }
+}
+
+pub fn slot_op() -> BoxedStrategy<SlotOp> {
+    (prop_oneof![6 => Just(0u8), 1 => Just(1u8), 2 => Just(2u8), 1 => Just(3u8), 1 => Just(4u8)], 0u32..12, 0u8..7, super::data::value(1), any::<bool>(), any::<bool>())
+        .prop_map(|(kind, sel, name, val, flag, before)| SlotOp { kind, sel, name, val, flag, before })
+        .boxed()
+}
+
+/// per step: mostly none
+pub fn slot_ops(max_steps: usize) -> BoxedStrategy<Vec<Vec<SlotOp>>> {
+    proptest::collection::vec(prop_oneof![2 => Just(vec![]), 3 => proptest::collection::vec(slot_op(), 1..4)], max_steps).boxed()
+}
+
 pub const HELPER_FIELDS: &[&str] = &["fn", "inc", "self", "id", "Arr", "Obj", "Fn", "obj", "arr"];
 
 pub fn edit() -> BoxedStrategy<Edit> {
